@@ -25,6 +25,10 @@ def cmat_nat(a):
     return clist([cnats(r) for r in np.asarray(a).tolist()])
 
 
+def cbools(l):
+    return clist(['true' if bool(x) else 'false' for x in np.asarray(l).tolist()])
+
+
 def czs(l):
     return clist([cz(int(x)) for x in l])
 
@@ -34,7 +38,7 @@ def czs(l):
 def correspondence(ctx, gen_ok):
     import skfem
     rng = np_seed(ctx, 18)
-    reix_cases, tag_cases, fac_cases, split_cases, ext_cases, join_cases, carry_cases = [], [], [], [], [], [], []
+    reix_cases, tag_cases, fac_cases, split_cases, ext_cases, join_cases, carry_cases, remap_cases = [], [], [], [], [], [], [], []
     # (a) _reix on arbitrary index matrices
     base = skfem.MeshTri1()
     for k in range(ctx.n(40, 200)):
@@ -81,9 +85,12 @@ def correspondence(ctx, gen_ok):
         q = rand_mesh1('MeshQuad1', rng, size=[2, int(rng.integers(2, 4))], integer=True)
         s = np.sort(rng.choice(q.t.shape[1], size=int(rng.integers(0, q.t.shape[1] + 1)), replace=False)).astype(np.int32)
         q = q.with_subdomains({'s': s})
+        if k % 3 == 0:                                   # unused trailing points
+            from dataclasses import replace as _replace
+            q = _replace(q, doflocs=np.hstack((q.p, 50.0 + rng.integers(0, 9, size=(2, int(rng.integers(1, 4)))))))
         for style, tag in ((None, 0), ('x', 1)):
             M = q.to_meshtri(style=style)
-            split_cases.append((f'(inl ({cnat(tag)}, {cnat(int(q.t.max()) + 1)}, {cmat_nat(q.t)}, {cnats(s)}))',
+            split_cases.append((f'(inl ({cnat(tag)}, ({cnat(q.p.shape[1])}, {cnat(int(q.t.max()) + 1)}), {cmat_nat(q.t)}, {cnats(s)}))',
                                 f'({cmat_nat(M.t)}, {cnats(np.asarray(M.subdomains["s"]))})',
                                 ('to_meshtri', style, q.t.shape[1])))
         h = rand_mesh1('MeshHex1', rng, size=[2, 2, int(rng.integers(2, 4))], integer=True)
@@ -116,15 +123,55 @@ def correspondence(ctx, gen_ok):
         Md = md.remove_duplicate_nodes()
         join_cases.append((f'(inr ({cnat(srt)}, {zcols(md.p)}, {cmat_nat(md.t)}))', f'({zcols(Md.p)}, {cmat_nat(Md.t)})',
                            ('dedupe', name, int(Md.p.shape[1]), int(md.p.shape[1]))))
+    # (f) remove_duplicate_nodes: remapping of plain and oriented named boundaries
+    def cmat_z(a):
+        return clist([czs(r) for r in np.asarray(a).tolist()])
+    for k in range(ctx.n(16, 80)):
+        name = ['MeshTri1', 'MeshQuad1', 'MeshTet1', 'MeshHex1'][k % 4]
+        m1 = rand_mesh1(name, rng, size=[2, 3] if k % 4 < 2 else [2, 2, 2], integer=True)
+        pd, td = O.with_duplicates(m1, rng)
+        md = type(m1)(pd, td)
+        _, bnd = rand_tags(md, rng, oriented=True)
+        md = md.with_boundaries(bnd)
+        M = md.remove_duplicate_nodes()
+        tbl = (f'{cnat(md.t2f.shape[0])}, {zcols(md.p)}, {cmat_nat(md.t)}, {cmat_nat(md.facets.T)}, {cmat_z(md.f2t)}, '
+               f'{cmat_nat(M.facets.T)}, {cmat_nat(M.t2f)}, {czs(M.f2t[1])}')
+        for nm, b in bnd.items():
+            o = getattr(b, 'ori', None)
+            g = M.boundaries[nm]
+            go = getattr(g, 'ori', None)
+            remap_cases.append((f'({tbl}, {cnats(np.asarray(b))}, {"None" if o is None else "Some " + cbools(o)})',
+                                f'({cnats(np.asarray(g))}, {"None" if go is None else "Some " + cbools(go)})',
+                                ('remap', name, len(b), o is not None)))
+    # (g) m0 @ [m1, m2, m3]: a list of meshes of different types over one merged point table
+    mm_cases = []
+    for k in range(ctx.n(8, 30)):
+        ms = [rand_mesh1(nm, rng, size=[2, 2], integer=True, holes=False) for nm in
+              (['MeshTri1', 'MeshQuad1', 'MeshTri1', 'MeshQuad1'] if k % 2 else ['MeshQuad1', 'MeshTri1', 'MeshQuad1'])]
+        ms = [m.translated((float(2 * i * (k % 3)), 0.0)) for i, m in enumerate(ms)]
+        out = ms[0] @ ms[1:]
+        j = int(rng.integers(0, len(ms)))
+        srt = 1 if type(ms[j]).__name__ == 'MeshTri1' else 0
+        mm_cases.append((f'({cnat(srt)}, {clist([zcols(m.p) for m in ms])}, {cnat(j)}, {cmat_nat(ms[j].t)})',
+                         f'({zcols(out[j].p)}, {cmat_nat(out[j].t)})', ('matmul', len(ms), j)))
+    from skfem.generic_utils import OrientedBoundary
     for k in range(ctx.n(16, 60)):
         q = rand_mesh1('MeshQuad1', rng, size=[2, int(rng.integers(2, 4))], integer=True)
         nf = q.facets.shape[1]
         b = rng.choice(nf, size=int(rng.integers(0, nf + 1)), replace=False).astype(np.int32)
-        q = q.with_boundaries({'b': b})
+        if len(b) and k % 2:
+            b = np.concatenate([b, b[:2]])                      # repeated entries
+        ori = rng.integers(0, 2, size=len(b))
+        ori[q.f2t[1, b] == -1] = 0
+        q = q.with_boundaries({'b': b, 'o': OrientedBoundary(b, ori)})
         for style in (None, 'x'):
             M = q.to_meshtri(style=style)
-            carry_cases.append((f'({cmat_nat(q.facets.T)}, {cmat_nat(M.facets.T)}, {cnats(b)})',
-                                f'(Some {cnats(np.asarray(M.boundaries["b"]))})', ('carry', style, len(b))))
+            tbl = f'{cnat(M.p.shape[1])}, {cmat_nat(q.facets.T)}, {cmat_nat(M.facets.T)}'
+            carry_cases.append((f'(inl ({tbl}, {cnats(b)}))', f'({cnats(np.asarray(M.boundaries["b"]))}, [])',
+                                ('carry', style, len(b))))
+            go = M.boundaries['o']
+            carry_cases.append((f'(inr ({tbl}, {cnat(q.t.shape[1])}, {cmat_z(q.f2t)}, {cnats(M.f2t[0])}, {cnats(b)}, {cbools(ori)}))',
+                                f'({cnats(np.asarray(go))}, {cbools(go.ori)})', ('carry-oriented', style, len(b))))
     if not gen_ok:
         return
     imp = 'Require Import Model.C18_Surgery Gen.C18Gen.\nFrom Coq Require Import List Arith Bool ZArith.'
@@ -143,12 +190,12 @@ Definition restricted (c : mat nat * mat nat * mat nat * list nat) : mat nat * m
   let '(t, t2f, F, el) := c in
   let ix := gen_restrict_ix 0 t el in
   (gen_reix_t ix, relabel_facets F (kept_facets t2f el) (gen_reix_table ix)).
-Definition split (c : (nat * nat * mat nat * list nat) + (nat * mat nat)) : mat nat * list nat :=
+Definition split (c : (nat * (nat * nat) * mat nat * list nat) + (nat * mat nat)) : mat nat * list nat :=
   match c with
   | inl (0, nv, t, s) => (sort_cols (2 * length (nth 0 t [])) (split_rows t gen_quad_split),
                           split_subdomain (length (nth 0 t [])) (length gen_quad_sub_offsets) s)
   | inl (_, nv, t, s) => let nt := length (nth 0 t []) in
-                         (sort_cols (4 * nt) (split_rows t gen_quad_split_x ++ [centre_row nv nt 4]),
+                         (sort_cols (4 * nt) (split_rows t gen_quad_split_x ++ [centre_row (gen_quad_x_base (fst nv) (snd nv)) nt 4]),
                           split_subdomain nt (length gen_quad_sub_offsets_x) s)
   | inr (0, t) => (split_rows t gen_hex_split, [])
   | inr (_, t) => (split_rows t gen_wedge_split, [])
@@ -162,8 +209,22 @@ Definition joined (c : (nat * list key * list key * mat nat * mat nat) + (nat * 
   | inl (srt, p1, p2, t1, t2) => (gen_join_p p1 p2, maybe_sort srt (gen_join_t p1 p2 t1 t2))
   | inr (srt, p, t) => (gen_dedupe_p p, maybe_sort srt (gen_dedupe_t p t))
   end.
-Definition carry (c : mat nat * mat nat * list nat) : option (list nat) :=
-  let '(OF, NF, b) := c in gen_carry_boundary OF NF b.
+Definition remapped (c : nat * list key * mat nat * mat nat * mat Z * mat nat * mat nat * list Z * list nat * option (list bool))
+  : list nat * option (list bool) :=
+  let '(ns, p, t, F, f2t, F', t2f', f2t1', ixs, ori) := c in
+  let newp := gen_remap_newp (length p) t (gen_dedupe_t p t) in
+  let nf := gen_remap_newf sort_nat ns newp F F' t2f' (map Z.to_nat (nth 0 f2t [])) in
+  gen_remap_tag nf f2t f2t1' ixs ori.
+Definition matmul (c : nat * list (list key) * nat * mat nat) : list key * mat nat :=
+  let '(srt, ps, j, t) := c in
+  (gen_dedupe_p (concat ps),
+   maybe_sort srt (gen_dedupe_t (concat ps) (map (map (fun v => v + gen_matmul_offset (map (@length key) ps) j)) t))).
+Definition carry (c : (nat * mat nat * mat nat * list nat) +
+                      (nat * mat nat * mat nat * nat * mat Z * list nat * list nat * list bool)) : list nat * list bool :=
+  match c with
+  | inl (nv, OF, NF, b) => (gen_carry_boundary nv OF NF b, [])
+  | inr (nv, OF, NF, nt, f2t, f2t0', b, ori) => gen_carry_oriented nv nt OF NF f2t f2t0' b ori
+  end.
 '''
     jobs = [
         lambda: ctx.corr('reix', imp, 'reix_all', 'reix_out_eqb', reix_cases, defs=defs, nontrivial=lambda r: r[3] >= 2),
@@ -175,11 +236,16 @@ Definition carry (c : mat nat * mat nat * list nat) : option (list nat) :=
         lambda: ctx.corr('extrude', imp, 'extr', 'natss_eqb', ext_cases, defs=defs, nontrivial=lambda r: r[1] >= 3),
         lambda: ctx.corr('join_and_dedupe', imp, 'joined', '(pair_eqb keys_eqb natss_eqb)', join_cases, defs=defs,
                          nontrivial=lambda r: r[2] < 2 * r[3] if r[0] == 'join' else r[2] < r[3]),
-        lambda: ctx.corr('to_meshtri_boundaries', imp, 'carry', '(option_eqb nats_eqb)', carry_cases, defs=defs,
+        lambda: ctx.corr('remove_duplicate_nodes_boundaries', imp, 'remapped',
+                         '(pair_eqb nats_eqb (option_eqb (list_eqb Bool.eqb)))', remap_cases, defs=defs,
+                         nontrivial=lambda r: r[2] >= 2),
+        lambda: ctx.corr('matmul_list', imp, 'matmul', '(pair_eqb keys_eqb natss_eqb)', mm_cases, defs=defs,
+                         nontrivial=lambda r: r[2] >= 2),
+        lambda: ctx.corr('to_meshtri_boundaries', imp, 'carry', '(pair_eqb nats_eqb (list_eqb Bool.eqb))', carry_cases, defs=defs,
                          nontrivial=lambda r: r[2] >= 2),
     ]
     from concurrent.futures import ThreadPoolExecutor
-    with ThreadPoolExecutor(len(jobs)) as ex:          # the coqc runs are independent processes
+    with ThreadPoolExecutor(4) as ex:                  # the coqc runs are independent processes
         list(ex.map(lambda j: j(), jobs))
 
 
@@ -187,25 +253,30 @@ Definition carry (c : mat nat * mat nat * list nat) : option (list nat) :=
 
 def run_op(ctx, op, m, rng):
     """apply one operation with its checks; returns the result mesh (None when the chain must stop)"""
-    name = type(m).__name__
+    name = type(m).__name__ if not isinstance(m, list) else 'list'
     state = rng.bit_generator.state
     try:
         M, info = op(m, rng)
     except O.Fail as e:
         key = f'{e.what}:{name}'
         ctx.fail(key, f'{op.__name__[3:]} on a {name}: {e.what} ({e.detail})',
-                 {'mesh': mesh_json(m), 'op': op.__name__, 'rng_state': _state_json(state), 'detail': str(e.detail)})
+                 {'mesh': _mj(m), 'op': op.__name__, 'rng_state': _state_json(state), 'detail': str(e.detail)})
         return None
     except Exception as e:                                # noqa: BLE001 — an exception IS a failing input
         tb = traceback.format_exc()
         key = f'exception:{op.__name__[3:]}:{name}:{type(e).__name__}'
         ctx.fail(key, f'{op.__name__[3:]} on a {name} raises {type(e).__name__}: {e}',
-                 {'mesh': mesh_json(m), 'op': op.__name__, 'rng_state': _state_json(state), 'traceback': tb[-1500:],
-                  'boundary_dtypes': {k: str(np.asarray(b).dtype) for k, b in (m.boundaries or {}).items()}})
+                 {'mesh': _mj(m), 'op': op.__name__, 'rng_state': _state_json(state), 'traceback': tb[-1500:],
+                  'boundary_dtypes': {} if isinstance(m, list) else
+                  {k: str(np.asarray(b).dtype) for k, b in (m.boundaries or {}).items()}})
         return None
-    ctx.count((op.__name__, mesh_json(m), info), nontrivial=m.t.shape[1] >= 2)
+    ctx.count((op.__name__, _mj(m), info), nontrivial=True)
     ctx.hist('operation', op.__name__[3:])
     return M
+
+
+def _mj(m):
+    return [mesh_json(x) for x in m] if isinstance(m, list) else mesh_json(m)
 
 
 def _state_json(st):
@@ -234,12 +305,28 @@ def oracle(ctx):
                 M = M.with_subdomains(sub).with_boundaries(bnd)
             m = M
         ctx.hist('chain_length', step + 1)
+    regressions(ctx, rng)
     # an empty named boundary through to_meshtri and on into restrict (a composition the random chains hit rarely)
     import skfem
     q = skfem.MeshQuad1().refined(1).with_boundaries({'none': np.array([], dtype=np.int32), 'left': lambda x: x[0] == 0})
     M = run_op(ctx, O.op_to_meshtri, q, rng)
     if M is not None:
         run_op(ctx, O.op_restrict, M, rng)
+
+
+def regressions(ctx, rng):
+    """inputs of repaired defects that random chains reach rarely"""
+    import skfem
+    for it in range(ctx.n(6, 30)):
+        # m0 @ [m1, m2, m3]
+        ms = [O.tagged_mesh(nm, rng, holes=False, size=[2, 2]) for nm in ('MeshTri1', 'MeshQuad1', 'MeshTri1', 'MeshQuad1')]
+        run_op(ctx, O.op_matmul_list, ms, rng)
+        # integer / NumPy scalar factors
+        m = O.tagged_mesh(['MeshTri1', 'MeshQuad1', 'MeshTet1', 'MeshHex1'][it % 4], rng)
+        run_op(ctx, O.op_scaled_scalar, m, rng)
+        # unused trailing points through to_meshtri('x')
+        q = O.tagged_mesh('MeshQuad1', rng)
+        run_op(ctx, O.op_to_meshtri_unused, q, rng)
 
 
 # ------------------------------------------------------------------------------ the check
@@ -281,8 +368,8 @@ def run(ctx):
 def replay(ctx, data):
     ctx.log('replaying', data.get('key'))
     inp = data['input']
-    m = mesh_from_json(inp['mesh'])
-    if inp.get('boundary_dtypes') and m.boundaries is not None:
+    m = [mesh_from_json(x) for x in inp['mesh']] if isinstance(inp['mesh'], list) else mesh_from_json(inp['mesh'])
+    if inp.get('boundary_dtypes') and not isinstance(m, list) and m.boundaries is not None:
         from dataclasses import replace
         m = replace(m, _boundaries={k: np.asarray(v).astype(inp['boundary_dtypes'].get(k, 'int32'))
                                     for k, v in m.boundaries.items()})
